@@ -108,6 +108,7 @@ impl Trace {
         Trace { w: BufWriter::with_capacity(1 << 20, File::create(path).expect("create trace file")), events: 0 }
     }
     pub fn ev(&mut self, v: Value) {
+        HEARTBEAT.fetch_add(1, std::sync::atomic::Ordering::Relaxed);
         serde_json::to_writer(&mut self.w, &v).unwrap();
         self.w.write_all(b"\n").unwrap();
         self.events += 1;
@@ -185,4 +186,33 @@ pub fn init_log() {
 /// sums with a few minutes) can hold: a deadline that far away is "never" for every world.
 pub fn ms_ceil(t: smoltcp::time::Instant) -> i64 {
     t.total_micros().saturating_add(999).div_euclid(1000).clamp(0, 1_500_000_000)
+}
+
+/// Progress counter of the process: every logged event moves it (worlds may move it themselves between events).
+pub static HEARTBEAT: std::sync::atomic::AtomicU64 = std::sync::atomic::AtomicU64::new(0);
+
+/// A call into the code under test that does not return is a hang, and a hang is data: when the heartbeat stands
+/// still for `secs` seconds a marker file `<out>.hang` is written and the process exits with status 3 (the runner
+/// cuts the trace at its last complete line and appends a panic event saying so).
+pub fn start_watchdog(out: String, secs: u64) {
+    std::thread::spawn(move || {
+        let mut last = 0u64;
+        let mut idle = 0u64;
+        loop {
+            std::thread::sleep(std::time::Duration::from_millis(500));
+            let b = HEARTBEAT.load(std::sync::atomic::Ordering::Relaxed);
+            if b == last {
+                idle += 1;
+            } else {
+                idle = 0;
+                last = b;
+            }
+            if idle >= secs * 2 {
+                if !std::path::Path::new(&(out.clone() + ".hang")).exists() {
+                    std::fs::write(out.clone() + ".hang", "{\"k\":-1,\"s\":{},\"frame\":-1,\"off\":0,\"hex\":\"\"}").ok();
+                }
+                std::process::exit(3);
+            }
+        }
+    });
 }
